@@ -198,7 +198,7 @@ def run_shard(H: Harness) -> None:
 
 MANIFEST = {
     "engine": "prog",
-    "technique": "property-based testing: grammar-generated nesting trees of DAGs, differential against the reference interpreter of the inlined program, id-prefix validity predicate",
+    "technique": "property-based testing + coverage-guided fuzzing (thorough tier: atheris/libFuzzer drives the same Hypothesis strategy with tawazi instrumented): grammar-generated nesting trees of DAGs, differential against the reference interpreter of the inlined program, id-prefix validity predicate",
     "level_text": "Exploration over nesting structures (depth <= 3) x inner signatures x argument-supply forms x return shapes x outer uses. The reference interpreter evaluates the nested program by inlining, so a mis-bound argument, a default that wins over a supplied value, a wrongly re-prefixed reference or an id capture is a value / observation difference.",
     "level_note": "Trusted: reference interpreter; node ids resolved through get_nodes_by_tag.",
 }
